@@ -395,6 +395,7 @@ fn ours_to_ref(case: &Case, data: &[u8], ctx: &mut Ctx) -> Option<Violation> {
         }
     };
     ctx.bytes("stream", &enc.bytes);
+    structure_reach(ctx, &case.fmt, &enc.bytes);
     ctx.nontrivial = true;
     let comp = writer_component(case);
     let o = &case.opt;
@@ -568,6 +569,7 @@ fn ref_to_ours(case: &Case, data: &[u8], ctx: &mut Ctx) -> Option<Violation> {
         }
     }
     ctx.bytes("stream", &stream);
+    structure_reach(ctx, &rc.fmt, &stream);
     ctx.nontrivial = true;
     let comp = reader_component(&rc);
     let d = decode(&rc, &Arc::new(stream), &case.src_policy, &[], data.len(), data.len() + (1 << 20), ctx.keep_log);
